@@ -19,7 +19,7 @@ logging.disable(logging.CRITICAL)
 
 from streamz import Stream              # noqa: E402
 
-GIVE_UP = 4.0      # seconds after which a push that has not come out is taken as never coming out
+GIVE_UP = 10.0     # seconds after which a push that has not come out is taken as never coming out
 SETTLE = 0.03      # lets the loop thread run out of work and block in its selector
 
 
@@ -78,6 +78,8 @@ class World:
                 time.sleep(SETTLE)
                 return True
             time.sleep(0.002)
+        self.gave_up = True
+        self.log(ev="GaveUp", arrived=self.arrived, last=self.last)
         return False
 
     def op(self, c):
@@ -99,8 +101,11 @@ def run(script):
     w = World()
     for c in script:
         w.op(c)
+        if getattr(w, "gave_up", False):
+            break       # (the verdict is in: the trace is rejected at the GaveUp event)
     w.op("r")
-    w.wait()
+    if not getattr(w, "gave_up", False):
+        w.wait()
     w.log(ev="End")
     # leave nothing behind on the shared background loop
     try:
